@@ -18,7 +18,12 @@
       every boundary between kinds, and equals the tangent kind when it is within 1e-10 of a tangency
       (exact lattice tangencies: Pythagorean triples); between the two anything is accepted;
     - [position] / [contains] likewise with the library's relative (resp. absolute) tolerance:
-      mandatory outside 1e-8, mandatory [Border]/[true] inside 1e-10. *)
+      mandatory outside 1e-8, mandatory [Border]/[true] inside 1e-10;
+    - [parallel] with the bands of [intersect_ll]; [Line::dist] / [util::dist] non-negative and within 1e-7 of
+      the exact distance; the Point operations within 2^-50 (relative to the magnitude of the exact terms) of
+      the exact sum / difference / product / dot / cross product, quotient and length through their defining
+      equations.
+    An observation [OFail] (an internal consistency check of the executor failed) fails both checks. *)
 From Coq Require Import List ZArith Bool Floats Uint63.
 From RlibV Require Import Common.Batch C10.Model.
 Import ListNotations.
@@ -62,7 +67,9 @@ Definition fclose (x y : float) : bool :=
   PrimFloat.leb (PrimFloat.abs (PrimFloat.sub x y)) (PrimFloat.mul tol9 (f_max (PrimFloat.abs y) 1%float)).
 
 (** * cases *)
-Inductive lspec := LB (x1 y1 x2 y2 : float) | LN (a b c : float).
+(** [LB]: Line::between, [LN]: Line::new, [LR]: the struct literal [Line { a, b, c }] (the fields are public;
+    [Line::default()] is [LR 0 0 0]) *)
+Inductive lspec := LB (x1 y1 x2 y2 : float) | LN (a b c : float) | LR (a b c : float).
 Inductive obs :=
 | OPanic
 | ONone | OSame
@@ -72,26 +79,37 @@ Inductive obs :=
 | OTwo (x1 y1 x2 y2 : float)        (* Intersect *)
 | OPos (k : Z)                  (* 0 Inside, 1 Border, 2 Outside *)
 | OBool (b : bool)
-| OLine (a b c : float).
+| OLine (a b c : float)
+| OVals (l : list float)           (* scalar results: Line::dist, util::dist, the Point operations *)
+| OFail.                           (* an internal consistency check of the executor failed (token X) *)
+(** list builders for the case printer (a literal inside the list notation needs an explicit scope, which makes the
+    batch files slow to parse) *)
+Definition v1 (a : float) : list float := [a].
+Definition v12 (a b c d e f g h i j k l : float) : list float := [a; b; c; d; e; f; g; h; i; j; k; l].
 Inductive case :=
 | CLine (l : lspec) (r : obs)
 | CLL (l1 l2 : lspec) (r : obs)
 | CCL (cx cy r0 : float) (l : lspec) (r : obs)
 | CCC (ax ay ar bx b_y br : float) (r : obs)
 | CPos (cx cy r0 px py : float) (r : obs)
-| CCon (l : lspec) (px py : float) (r : obs).
+| CCon (l : lspec) (px py : float) (r : obs)
+| CLDist (l : lspec) (px py : float) (r : obs)          (* Line::dist *)
+| CDist (x1 y1 x2 y2 : float) (r : obs)                 (* util::dist *)
+| CPar (l1 l2 : lspec) (r : obs)                        (* util::parallel *)
+| CPt (x1 y1 x2 y2 k : float) (r : obs).                (* a+b, a-b, a*k, a/k, dp, cp, slen, len *)
 
 (** * model side *)
 Definition fline (l : lspec) : Ln float :=
   match l with
   | LB x1 y1 x2 y2 => line_between fops (fpt x1 y1) (fpt x2 y2)
   | LN a b c => line_new fops a b c
+  | LR a b c => mkLn a b c
   end.
 
 (** model results, as floats *)
 Inductive mres :=
 | MNone | MSame | MPt (p : Pt float) | MTouch (p : Pt float) | MTouchIn (p : Pt float) | MTouchOut (p : Pt float)
-| MTwo (p q : Pt float) | MPos (k : Z) | MBool (b : bool) | MLine (l : Ln float).
+| MTwo (p q : Pt float) | MPos (k : Z) | MBool (b : bool) | MLine (l : Ln float) | MVals (l : list float).
 
 Definition of_cl (r : CL float) : mres :=
   match r with CLNone => MNone | CLTouch p => MTouch p | CLIntersect p q => MTwo p q end.
@@ -111,15 +129,29 @@ Definition run_model (c : case) : mres :=
       of_cc (intersect_cc fops feps (mkCirc (fpt ax ay) ar) (mkCirc (fpt bx b_y) br))
   | CPos cx cy r0 px py _ => MPos (of_pos (position fops feps (mkCirc (fpt cx cy) r0) (fpt px py)))
   | CCon l px py _ => MBool (contains fops feps (fline l) (fpt px py))
+  | CLDist l px py _ => MVals [ldist fops (fline l) (fpt px py)]
+  | CDist x1 y1 x2 y2 _ => MVals [dist fops (fpt x1 y1) (fpt x2 y2)]
+  | CPar l1 l2 _ => MBool (parallel fops feps (fline l1) (fline l2))
+  | CPt x1 y1 x2 y2 k _ =>
+      let a := fpt x1 y1 in let b := fpt x2 y2 in
+      let s := padd fops a b in let d := psub fops a b in let m := pscale fops a k in let q := pdiv fops a k in
+      MVals [px s; py s; px d; py d; px m; py m; px q; py q; dp fops a b; cp fops a b; slen fops a; len fops a]
   end.
 Definition observed (c : case) : obs :=
   match c with
-  | CLine _ r | CLL _ _ r | CCL _ _ _ _ r | CCC _ _ _ _ _ _ r | CPos _ _ _ _ _ r | CCon _ _ _ r => r
+  | CLine _ r | CLL _ _ r | CCL _ _ _ _ r | CCC _ _ _ _ _ _ r | CPos _ _ _ _ _ r | CCon _ _ _ r
+  | CLDist _ _ _ r | CDist _ _ _ _ r | CPar _ _ r | CPt _ _ _ _ _ r => r
   end.
 
 Section Cmp.
 Variable fe : float -> float -> bool.
 Definition pt_ok (p : Pt float) (x y : float) : bool := fe (px p) x && fe (py p) y.
+Fixpoint vals_ok (m r : list float) : bool :=
+  match m, r with
+  | [], [] => true
+  | x :: m', y :: r' => fe x y && vals_ok m' r'
+  | _, _ => false
+  end.
 Definition res_ok (m : mres) (r : obs) : bool :=
   match m, r with
   | MNone, ONone => true
@@ -132,6 +164,7 @@ Definition res_ok (m : mres) (r : obs) : bool :=
   | MPos k, OPos k' => k =? k'
   | MBool b, OBool b' => Bool.eqb b b'
   | MLine l, OLine a b c => fe (la l) a && fe (lb l) b && fe (lc l) c
+  | MVals m, OVals l => vals_ok m l
   | _, _ => false
   end.
 End Cmp.
@@ -184,7 +217,7 @@ Definition dline_of (l : lspec) : option dline :=
       let A := dsub (snd u) (snd v) in
       let B := dsub (fst v) (fst u) in
       Some (A, B, dopp (dadd (dmul A (fst u)) (dmul B (snd u))))
-  | LN a b c => do A <- dy_of_bits a; do B <- dy_of_bits b; do C <- dy_of_bits c; Some (A, B, C)
+  | LN a b c | LR a b c => do A <- dy_of_bits a; do B <- dy_of_bits b; do C <- dy_of_bits c; Some (A, B, C)
   end.
 Definition ln2 (l : dline) : dy := let '(A, B, _) := l in dadd (dsq A) (dsq B).
 Definition lev (l : dline) (p : dpt) : dy := let '(A, B, C) := l in dadd (dadd (dmul A (fst p)) (dmul B (snd p))) C.
@@ -193,7 +226,9 @@ Definition lev (l : dline) (p : dpt) : dy := let '(A, B, C) := l in dadd (dadd (
 Definition coord_ok (x : dy) : bool := dle (dabs x) (dZ 1024).
 Definition pt_in (p : dpt) : bool := coord_ok (fst p) && coord_ok (snd p).
 Definition rad_ok (r : dy) : bool := dle (mkDy 1 (-10)) r && dle r (dZ 1024).
-(** a proper line: (A,B) <> 0, defining data within bounds; two defining points at least 2^-10 apart *)
+(** a proper line: (A,B) <> 0, defining data within bounds; two defining points at least 2^-10 apart; a struct
+    literal has to carry a unit normal (the library's documented use: [dist] is a distance only then), i.e.
+    |A^2 + B^2 - 1| <= 2^-48, which admits every correctly rounded unit vector *)
 Definition line_in (l : lspec) : bool :=
   match l with
   | LB x1 y1 x2 y2 =>
@@ -204,6 +239,12 @@ Definition line_in (l : lspec) : bool :=
   | LN a b c =>
       match dy_of_bits a, dy_of_bits b, dy_of_bits c with
       | Some A, Some B, Some C => coord_ok A && coord_ok B && coord_ok C && dle (mkDy 1 (-20)) (dadd (dsq A) (dsq B))
+      | _, _, _ => false
+      end
+  | LR a b c =>
+      match dy_of_bits a, dy_of_bits b, dy_of_bits c with
+      | Some A, Some B, Some C =>
+          coord_ok A && coord_ok B && coord_ok C && dle (dabs (dsub (dadd (dsq A) (dsq B)) d1)) (mkDy 1 (-48))
       | _, _, _ => false
       end
   end.
@@ -342,6 +383,77 @@ Definition spec_ll (l1 l2 : dline) (o : obs) : bool :=
   | _ => false
   end.
 
+(** util::parallel: the same two bands *)
+Definition spec_par (l1 l2 : dline) (o : obs) : bool :=
+  let '(A1, B1, _) := l1 in let '(A2, B2, _) := l2 in
+  let cr2 := dsq (dsub (dmul A1 B2) (dmul B1 A2)) in
+  let nn := dmul (ln2 l1) (ln2 l2) in
+  match o with
+  | OBool true => negb (dle nn (dscale (10 ^ 16) cr2))          (* not when |sin| >= 1e-8 *)
+  | OBool false => negb (dle (dscale (10 ^ 20) cr2) nn)         (* not when |sin| <= 1e-10 *)
+  | _ => false
+  end.
+
+(** Line::dist: within 1e-7 of the exact distance |A px + B py + C| / sqrt (A^2 + B^2), and not negative:
+    (10^7 x - 1)^2 N <= 10^14 ev^2 <= (10^7 x + 1)^2 N *)
+Definition spec_ldist (l : dline) (p : dpt) (o : obs) : bool :=
+  match o with
+  | OVals [x] =>
+      match dy_of_bits x with
+      | Some X =>
+          let k := 10 ^ 7 in
+          let s := dscale k X in
+          let E := dscale (k * k) (dsq (lev l p)) in
+          dle d0 X && dle E (dmul (dsq (dadd s d1)) (ln2 l)) && (dle s d1 || dle (dmul (dsq (dsub s d1)) (ln2 l)) E)
+      | None => false
+      end
+  | _ => false
+  end.
+
+(** util::dist: within 1e-7 of the exact distance, not negative *)
+Definition spec_dist (p q : dpt) (o : obs) : bool :=
+  match o with
+  | OVals [x] => match dy_of_bits x with Some X => dle d0 X && near_circle p q X | None => false end
+  | _ => false
+  end.
+
+(** the Point operations against exact arithmetic: |observed - exact| <= 2^-50 * (sum of the magnitudes of the
+    exact terms) + 2^-200 (a correctly rounded sum of two correctly rounded products is within 2^-52 of it);
+    a quotient [q = x / k] is checked as |q k - x| <= 2^-50 |x| + ..., the length as |l^2 - slen| <= 2^-48 slen + ... *)
+Definition tiny : dy := mkDy 1 (-200).
+Definition close_to (o : float) (exact mag : dy) (e : Z) : bool :=
+  match dy_of_bits o with
+  | Some v => dle (dabs (dsub v exact)) (dadd (dmul (mkDy 1 e) mag) tiny)
+  | None => false
+  end.
+Definition spec_pt (a b : dpt) (k : dy) (o : obs) : bool :=
+  let '(x1, y1) := a in let '(x2, y2) := b in
+  match o with
+  | OVals [sx; sy; ex; ey; mx; my; qx; qy; dpv; cpv; sl; ln] =>
+      close_to sx (dadd x1 x2) (dadd (dabs x1) (dabs x2)) (-50)
+      && close_to sy (dadd y1 y2) (dadd (dabs y1) (dabs y2)) (-50)
+      && close_to ex (dsub x1 x2) (dadd (dabs x1) (dabs x2)) (-50)
+      && close_to ey (dsub y1 y2) (dadd (dabs y1) (dabs y2)) (-50)
+      && close_to mx (dmul x1 k) (dabs (dmul x1 k)) (-50)
+      && close_to my (dmul y1 k) (dabs (dmul y1 k)) (-50)
+      && match dy_of_bits qx, dy_of_bits qy with
+         | Some QX, Some QY =>
+             dle (dabs (dsub (dmul QX k) x1)) (dadd (dmul (mkDy 1 (-50)) (dabs x1)) tiny)
+             && dle (dabs (dsub (dmul QY k) y1)) (dadd (dmul (mkDy 1 (-50)) (dabs y1)) tiny)
+         | _, _ => false
+         end
+      && close_to dpv (dadd (dmul x1 x2) (dmul y1 y2)) (dadd (dabs (dmul x1 x2)) (dabs (dmul y1 y2))) (-50)
+      && close_to cpv (dsub (dmul x1 y2) (dmul y1 x2)) (dadd (dabs (dmul x1 y2)) (dabs (dmul y1 x2))) (-50)
+      && close_to sl (dadd (dsq x1) (dsq y1)) (dadd (dsq x1) (dsq y1)) (-50)
+      && match dy_of_bits ln with
+         | Some L =>
+             let s2 := dadd (dsq x1) (dsq y1) in
+             dle d0 L && dle (dabs (dsub (dsq L) s2)) (dadd (dmul (mkDy 1 (-48)) s2) tiny)
+         | None => false
+         end
+  | _ => false
+  end.
+
 (** Line::new / Line::between: unit normal, same line, same orientation *)
 Definition spec_line (l : dline) (o : obs) : bool :=
   match o with
@@ -376,7 +488,14 @@ Definition in_scope (c : case) : bool :=
       match circ_of ax ay ar, circ_of bx b_y br with Some _, Some _ => true | _, _ => false end
   | CPos cx cy r0 px py _ =>
       match circ_of cx cy r0, pt_of px py with Some _, Some _ => true | _, _ => false end
-  | CCon l px py _ => match pt_of px py with Some _ => line_in l | None => false end
+  | CCon l px py _ | CLDist l px py _ => match pt_of px py with Some _ => line_in l | None => false end
+  | CDist x1 y1 x2 y2 _ => match pt_of x1 y1, pt_of x2 y2 with Some _, Some _ => true | _, _ => false end
+  | CPar l1 l2 _ => line_in l1 && line_in l2
+  | CPt x1 y1 x2 y2 k _ =>
+      match pt_of x1 y1, pt_of x2 y2, dy_of_bits k with
+      | Some _, Some _, Some K => rad_ok (dabs K)
+      | _, _, _ => false
+      end
   end.
 
 Definition spec_check (c : case) : bool :=
@@ -396,6 +515,17 @@ Definition spec_check (c : case) : bool :=
       match circ_of cx cy r0, pt_of px py with Some (c, rr), Some p => spec_pos c rr p r | _, _ => false end
   | CCon l px py r =>
       match dline_of l, pt_of px py with Some L, Some p => spec_con L p r | _, _ => false end
+  | CLDist l px py r =>
+      match dline_of l, pt_of px py with Some L, Some p => spec_ldist L p r | _, _ => false end
+  | CDist x1 y1 x2 y2 r =>
+      match pt_of x1 y1, pt_of x2 y2 with Some p, Some q => spec_dist p q r | _, _ => false end
+  | CPar l1 l2 r =>
+      match dline_of l1, dline_of l2 with Some L1, Some L2 => spec_par L1 L2 r | _, _ => false end
+  | CPt x1 y1 x2 y2 k r =>
+      match pt_of x1 y1, pt_of x2 y2, dy_of_bits k with
+      | Some a, Some b, Some K => spec_pt a b K r
+      | _, _, _ => false
+      end
   end.
 
 (** what the model computes on the input of a case (for replay files), and whether the case is
